@@ -135,7 +135,7 @@ def h_order(d, nsent, processes, max_chunk_size):
     return True
 
 
-def h_shapes(d, many, ntok, tag_rows, tag_cols, dep_cols, ncat, nscores):
+def h_shapes(d, many, ntok, tag_rows, tag_cols, dep_cols, ncat, nscores, bad_at=0):
     """run() rejects inputs whose shapes do not fit before any parsing"""
     from depccg.cat import Category
     from depccg.types import Token, ScoringResult
@@ -145,7 +145,7 @@ def h_shapes(d, many, ntok, tag_rows, tag_cols, dep_cols, ncat, nscores):
     sys.modules['depccg._parsing'].run = lambda *a, **k: calls.append(1) or tagging_run(*a, **k)
     cats = [Category.parse(c) for c in ('NP', 'N', 'S', 'PP')[:ncat]]
     doc = [[Token(word='w%d' % i) for i in range(ntok)] for _ in range(2 if many else 1)]
-    srs = [ScoringResult(*arrays(ntok, ncat, tag_rows, tag_cols, dep_cols)) for _ in range(nscores)]
+    srs = [ScoringResult(*(arrays(ntok, ncat, tag_rows, tag_cols, dep_cols) if i >= bad_at else arrays(ntok, ncat))) for i in range(nscores)]
     fits = tag_rows == ntok and tag_cols == ncat and dep_cols == ntok + 1 and nscores == len(doc)
     try:
         if many:
@@ -179,6 +179,9 @@ def obligations(tier):
                             for nscores in ((1, 2) if many else (1,)):
                                 yield Obligation('C11.shapes[%s,tok=%d,tag=%dx%d,dep=%dx%d,cats=%d,scores=%d]' % ('batch' if many else 'single', ntok, tag_rows, tag_cols, ntok, dep_cols, ncat, nscores),
                                                  'h_shapes', dict(many=many, ntok=ntok, tag_rows=tag_rows, tag_cols=tag_cols, dep_cols=dep_cols, ncat=ncat, nscores=nscores), cost=1)
+                                if many and nscores == 2:
+                                    yield Obligation('C11.shapes[batch,first sentence fits,second: tok=%d,tag=%dx%d,dep=%dx%d,cats=%d]' % (ntok, tag_rows, tag_cols, ntok, dep_cols, ncat),
+                                                     'h_shapes', dict(many=many, ntok=ntok, tag_rows=tag_rows, tag_cols=tag_cols, dep_cols=dep_cols, ncat=ncat, nscores=nscores, bad_at=1), cost=1)
 
 
 # ---------------------------------------------------------------------------------- Engine Z: _chunks arithmetic from the AST
